@@ -31,7 +31,7 @@ ASSUMPTIONS = ["virtual clock; verdict on virtual instants (+-1 us)",
                "no other fault disturbs the link in these scenarios"]
 REQUIRED_OBS = ["heartbeats_compared", "timeout_resets_predicted_and_seen",
                 "never_answered_from_start", "all_answered_no_reset", "custom_configs",
-                "reset_after_previous_reset"]
+                "reset_after_previous_reset", "after_init_shutdown_cycle"]
 BUDGET = {"quick": 100, "thorough": 1500}
 
 N = 12
@@ -96,9 +96,14 @@ def cases(tier, seed):
                     yield {"gen": gen, "mode": "api", "pattern": list(pat) + [None] * (N - k)}
     n = 150 if tier == "quick" else 40000
     delays = [0.0, 0.0, 1.0, 29.0, 29.999, 30.001, 45.0, None, None]
-    for _ in range(n):
+    for i in range(n):
         yield {"gen": rnd.choice((4, 5)), "mode": "api",
-               "pattern": [rnd.choice(delays) for _ in range(N)]}
+               "pattern": [rnd.choice(delays) for _ in range(N)],
+               "cycle": i % 3 == 0, "vary_version": i % 2 == 0}
+    for gen in (4, 5):
+        for pat in ([None] * N, [0.0] * N, [45.0, None, 0.0] * 4):
+            yield {"gen": gen, "mode": "api", "pattern": pat, "cycle": True,
+                   "vary_version": True}
     m = 60 if tier == "quick" else 15000
     for _ in range(m):
         I = rnd.choice([10.0, 60.0, 300.0, 7.5])
@@ -162,8 +167,31 @@ def run_api(case):
         i = n - 2
         return pattern[i] if i < len(pattern) else 0.0
 
+    base_n = [0]
+
+    def answer2(n, t):
+        return answer(n - base_n[0], t)
+
     async def main(loop, net, log):
-        w = AW.ApiWorld(gen, loop, net, log, knobs=C.Knobs(answer_heartbeat=answer))
+        w = AW.ApiWorld(gen, loop, net, log, knobs=C.Knobs(answer_heartbeat=answer2))
+        if case.get("vary_version"):
+            # every answer carries a different version / update flag (also a state change
+            # for the API's own version handling)
+            orig = w.console.frame_version
+
+            def frame_version(pid=None):
+                k = w.console.heartbeats
+                w.inst["version"] = (k % 2 == 1, ["1.%d.%d" % (k % 3, k % 5)] + (
+                    ["9.%d" % (k % 2)] if k % 4 == 0 else []))
+                return orig(pid)
+            w.console.frame_version = frame_version
+        if case.get("cycle"):
+            # an earlier init -> steady state -> shutdown on the same object
+            ok0 = await w.init()
+            await asyncio.sleep(412.5)
+            await w.at.shutdown()
+            await asyncio.sleep(77.25)
+            base_n[0] = w.console.heartbeats
         ok = await w.init()
         out["ok"] = ok
         out["T0"] = loop.time()
@@ -188,6 +216,8 @@ def run_api(case):
     compare(viol, obs, "api", want_reqs, want_resets, reqs, closes, opens, info)
     if all(p is None for p in pattern):
         obs["never_answered_from_start"] = 1
+    if case.get("cycle") and not viol:
+        obs["after_init_shutdown_cycle"] = 1
     for x in viol:
         x["log"] = H.log_slice(log, 30)
     return viol, obs
